@@ -123,11 +123,12 @@ impl ScanWithConfig {
     let unused_suppression_rule = unused_suppression_rule_config(&arg, &overwrite);
     let (configs, rule_trace) = if let Some(path) = &arg.rule {
       let rules = read_rule_file(path, None)?;
-      with_rule_stats(rules)?
+      // --error/--warning/--info/--hint/--off apply to these rules as well
+      with_rule_stats(overwrite.process_configs(rules)?)?
     } else if let Some(text) = &arg.inline_rules {
       let rules = from_yaml_string(text, &Default::default())
         .with_context(|| EC::ParseRule("INLINE_RULES".into()))?;
-      with_rule_stats(rules)?
+      with_rule_stats(overwrite.process_configs(rules)?)?
     } else {
       // NOTE: only query project here since -r does not need project
       let project_config = project?;
